@@ -19,6 +19,8 @@ pub struct SysCfg {
     pub segments_per_merge: usize,
     pub wal_flush_each_write: bool,
     pub wal_buffered: bool,
+    /// `[wal] buffer_size` (a size string or a byte count)
+    pub wal_buffer_size: String,
     pub conservative: bool,
     pub bypass_auth: bool,
     pub max_inflight_passives: usize,
@@ -36,6 +38,7 @@ impl Default for SysCfg {
             segments_per_merge: 2,
             wal_flush_each_write: true,
             wal_buffered: false,
+            wal_buffer_size: "100KB".into(),
             conservative: false,
             bypass_auth: true,
             max_inflight_passives: 8,
@@ -63,7 +66,7 @@ impl SysCfg {
 enabled = true
 fsync = false
 buffered = {buffered}
-buffer_size = "100KB"
+buffer_size = "{bufsz}"
 dir = "{r}/wal/"
 flush_each_write = {few}
 fsync_every_n = 1024
@@ -122,6 +125,7 @@ week_start = "{ws}"
 use_calendar_bucketing = true
 "#,
             buffered = self.wal_buffered,
+            bufsz = self.wal_buffer_size,
             few = self.wal_flush_each_write,
             cons = self.conservative,
             ff = self.fill_factor,
